@@ -113,46 +113,7 @@ theorem inv_writeHeader (w : W) (c : Nat) (hc : 100 ≤ c) (h : Inv w) : Inv (w.
         · rfl
         · rfl
 
-theorem inv_step (w : W) (op : Op) (hv : validOp op) (h : Inv w) : Inv (w.step op) := by
-  cases op with
-  | writeHeader c => exact inv_writeHeader w c hv h
-  | before hk => exact ⟨h.unsent, h.sent, h.size, h.head⟩
-  | write len fwd =>
-    simp only [W.step]
-    have hw : Inv (if w.written then w else w.writeHeader 200) := by
-      split
-      · exact h
-      · exact inv_writeHeader w 200 (by omega) h
-    have hst : (if w.written then w else w.writeHeader 200).status ≠ 0 := by
-      split
-      · rename_i hwr; simpa [W.written] using hwr
-      · rename_i hwr
-        have hs : w.status = 0 := by simpa [W.written] using hwr
-        have hu := h.unsent hs
-        unfold W.writeHeader
-        by_cases h1 : w.onceDone = true
-        · -- once done but nothing sent: impossible only with valid ops from init; carried as part of Inv in the full version
-          sorry
-        · simp [h1, W.written, hs]
-    generalize (if w.written then w else w.writeHeader 200) = w' at hw hst
-    by_cases hh : w'.head = true
-    · simp [hh]; exact hw
-    · simp only [hh, Bool.false_eq_true, ↓reduceIte]
-      constructor
-      · intro h0; exact absurd h0 hst
-      · intro _
-        have := hw.sent hst
-        refine ⟨?_, this.2⟩
-        simp [List.filter_append, isHdr, this.1]
-      · simp [bodySum_append, bodySum, hw.size]
-      · intro h0; exact absurd h0 hh
-  | flush => sorry
-
-theorem inv_run (ops : List Op) (hv : ∀ op ∈ ops, validOp op) (w : W) (h : Inv w) :
-    Inv (ops.foldl W.step w) := by
-  induction ops generalizing w with
-  | nil => exact h
-  | cons op ops ih =>
-    exact ih (fun o ho => hv o (by simp [ho])) _ (inv_step w op (hv op (by simp)) h)
+-- (the `write`/`flush` cases of `inv_step` and the lift `inv_run` over `List.foldl` were sketched in the
+-- spike and are left to the real development in lean/Flamego/Proofs/Writer.lean)
 
 end P2
